@@ -64,6 +64,12 @@ def layout_text(rng, shape, kind):
                 if rng.random() < 0.25:
                     cur += 64 * rng.randint(1, 3)
             off = rng.choice([0, 0, 0, 64, 128])
+            if rng.random() < 0.35:
+                # the same address function written with three tile levels in a dimension (outer level split in two)
+                for d in (0, 1):
+                    if tb[d][0] % 2 == 0 and tb[d][0] >= 2 and rng.random() < 0.7:
+                        tb[d] = [tb[d][0] // 2, 2, tb[d][1]]
+                        steps[d] = [2 * steps[d][0], steps[d][0], steps[d][1]]
             return ", " + tsl_text(tb, steps, off)
         if len(shape) == 1 and shape[0] % 4 == 0:
             t = rng.choice([4, 4, shape[0]])
